@@ -104,6 +104,18 @@ Example C05_writeback_append_nonvacuous : c_writeback wb_cfg = true /\ HP wb_sta
    sys_pread (p_host s3) 11 16 0 = Ok [67; 49; 50; 51]).
 Proof. exact wb_nonvacuous. Qed.
 
+(* reopening an inode under the caller's credentials (create() on an existing name) fails only when the direct open as the
+   caller fails: REFUTED under inode_file_handles for non-root callers (known finding), proved outside that class *)
+Theorem C05_reopen_as_caller_refuted : ~ C05_reopen_as_caller_full.
+Proof. exact reopen_as_caller_refuted. Qed.
+Theorem C05_reopen_as_caller_partial : forall cf s inode flags d e, ~ KnownReopen cf s ->
+  assoc inode (p_inodes s) = Some d -> is_safe_inode (id_mode d) = true ->
+  fst (open_inode cf s inode flags) = Err e ->
+  fst (sys_reopen (p_creds s) (p_host s) (id_host d) (reopen_call_flags cf flags)) = Err e.
+Proof. exact reopen_as_caller_partial. Qed.
+Example C05_reopen_known_nonvacuous : KnownReopen ro_cfg ro_state.
+Proof. exact ro_known. Qed.
+
 Theorem C05_special_never_opened : forall cf s inode flags d, assoc inode (p_inodes s) = Some d ->
   is_safe_inode (id_mode d) = false -> open_inode cf s inode flags = (Err EBADF, s).
 Proof. exact special_never_opened. Qed.
@@ -134,4 +146,6 @@ Print Assumptions C05_flags_check_fd.
 Print Assumptions C05_write_flags.
 Print Assumptions C05_pwrite_append.
 Print Assumptions C05_writeback_append.
+Print Assumptions C05_reopen_as_caller_refuted.
+Print Assumptions C05_reopen_as_caller_partial.
 Print Assumptions C05_special_never_opened.
